@@ -81,8 +81,25 @@ CLAIMED = {
     'C16': dict(text='2-run bounded symbolic execution of the whole chain under two namings of the ceilometers (swap, names that sort '
                      'differently, prefix names), exclusion list mapped: equality of all results decided by z3.',
                 ref='DESIGN.md 4/C16', note=TRUST + '; names are concrete strings, their assignment to hits is symbolic'),
+    'C09': dict(text='Claimed in part. Symbolic execution of utils.tmp_seed and canonical_demo_data against numpy.random modelled as an '
+                     'explicit state cell with a symbolic 5-field legacy state (restored whether the body returns or raises); '
+                     'ncomp_from_gmm with any seed >= 0 hands exactly that seed to every mixture model; the chain never touches the '
+                     'global generator; 2-run history independence. Not claimed: bit-identity across processes, hash seeds, builds.',
+                ref='DESIGN.md 4/C09', note=TRUST + '; determinism of the three numerical procedures is assumed (memoised stubs)'),
+    'C11': dict(text='Symbolic execution of the constructor (+ chain) with symbolic per-call dictionaries (presence bit and value per key '
+                     'at depths 1-3, unknown keys) over a global with symbolic leaves: caller frame / caller dict / global unchanged, '
+                     'snapshot = effective values, no shared containers (heap walk on every path), no leak in either direction.',
+                ref='DESIGN.md 4/C11', note=TRUST),
+    'C12': dict(text='Claimed in part. 2-run: per-call dictionary over a poisoned global vs edited global (same chunk parameters, tables, '
+                     'messages; any stray read of the live global makes the results mention a poisoned variable); unknown keys warn once, '
+                     'add nothing; reset_prms after nested in-place edits of every leaf for every choice of names. YAML route only on concrete files.',
+                ref='DESIGN.md 4/C12', note=TRUST + '; ruamel.yaml runs for real on concrete files'),
+    'C13': dict(text='Claimed at stage granularity. Every interleaving (70) of the 4+4 stage calls of two chunks with symbolic data and '
+                     'per-call parameters: each chunk ends exactly as when processed alone; module/class-level mutable state untouched. '
+                     'Thread pre-emption inside a stage is not claimed.',
+                ref='DESIGN.md 4/C13', note=TRUST),
 }
-NA = {}
+NA = {'C20': 'not built yet: needs a recording matplotlib model (lowest priority in DESIGN.md section 8)'}
 
 
 def main():
